@@ -54,6 +54,9 @@ def jobs(tier):
     # reachable requested types, in the order of target_keys, with the requested channels"), which is owned by C11
     from .common import dep_jobs
     out += dep_jobs("gvc.props.c11", lambda fn, kw: fn in ("ob_call", "ob_init"))
+    # dependency: the conventional mode's flattening of tensor components into scalar channels and its inverse (every component
+    # of every type back at its own position, for signatures given in any order) is owned by C13
+    out += dep_jobs("gvc.props.c13", lambda fn, kw: fn in ("ob_scalar", "ob_scalar_layout") and kw["D"] == 2 and kw["nlead"] in (1, 2))
     return out
 
 
